@@ -323,6 +323,28 @@ for spectrum, sampling in ((None, 'log'), (str(d / 'spectrum.txt'), 'log'), (str
 """, "expect": "every draw of a seeded run comes from the seeded process-wide generator or from a generator seeded from it"}}
 
 
+FRAME_REPLAYS = {"radiation_induced_dark_current": lambda w: {"code": """
+import numpy as np, pickle, warnings
+from pyxel.detectors import CCD, CCDGeometry, Characteristics, Environment, ReadoutProperties
+from pyxel.models.charge_generation import radiation_induced_dark_current
+warnings.simplefilter('ignore')
+def run(seed, prior, shot_noise):
+    np.random.seed(prior); np.random.random(prior % 7)
+    det = CCD(geometry=CCDGeometry(row=16, col=16, total_thickness=40.0, pixel_vert_size=10.0, pixel_horz_size=10.0), environment=Environment(temperature=240.0), characteristics=Characteristics())
+    det._readout_properties = ReadoutProperties(times=[100.0])
+    before = pickle.dumps(np.random.get_state())
+    radiation_induced_dark_current(detector=det, depletion_volume=64.0, annealing_time=0.1, displacement_dose=500.0, shot_noise=shot_noise, seed=seed)
+    return np.array(det.charge.array, copy=True), pickle.dumps(np.random.get_state()) == before
+VIOLATED, DETAIL = False, 'the model draws only inside its seed context: same seed, same charge; the process-wide generator is left as it was'
+for shot_noise in (False, True):
+    for seed in (0, 42):
+        (a, ra), (b, rb) = run(seed, 3, shot_noise), run(seed, 2024, shot_noise)
+        if not np.array_equal(a, b) or not (ra and rb):
+            VIOLATED, DETAIL = True, f'shot_noise={shot_noise}, seed={seed}: {int((a != b).sum())} pixels differ between two runs from different generator states; generator restored: {ra and rb}'; break
+    if VIOLATED: break
+""", "expect": "every draw of the model happens inside `with set_random_seed(seed)`"}}
+
+
 MEMO_REPLAYS = {"fixed_pattern_noise": lambda w: {"code": """
 import numpy as np, verif_probes as VP
 from pyxel.models.charge_collection import fixed_pattern_noise
@@ -361,9 +383,9 @@ def model_frame(u: Unit):
             withs = [w for w in ast.walk(fn.node) if isinstance(w, ast.With) and any(seeds_with_param(it) for it in w.items)]
             u.static(f"model.frame[{fn.name}]", not bad and len(withs) >= 1, fn.qualname,
                      f"{len(sites)} global draws, unguarded: {bad}; `with set_random_seed(seed)` blocks: {len(withs)}", witness={"function": fn.name, "unguarded": bad},
-                     replay=lambda w, mod=mi.name, name=fn.name: {"code": f"""
+                     replay=FRAME_REPLAYS.get(fn.name, lambda w, mod=mi.name, name=fn.name: {"code": f"""
 VIOLATED, DETAIL = False, 'structural obligation: a draw outside the seed context in {mod}.{name} (see witness)'
-""", "expect": "draws inside the seed context"})
+""", "expect": "draws inside the seed context"}))
             # what a seeded model draws must be a function of (seed, arguments): a memoised drawing function returns the draws of
             # an EARLIER call (made under another seed) on a cache hit, and draws nothing
             memo = [(f.qualname, d) for f in drawing_functions(u.world, fn) for d in memo_decorators(f)]
